@@ -310,18 +310,34 @@ Section Facts.
     apply (check_room_ok r p f Hc) in Ef. apply check_federation_ok in Ef as (Hs & _). rewrite Hs. discriminate.
   Qed.
 
+  (* storePendingMessage -> IsChatRefresh: data.Chat is only dereferenced when it is not nil *)
+  Lemma is_chat_refresh_some : forall data, exists r, is_chat_refresh data = Some r.
+  Proof.
+    intros data. unfold is_chat_refresh.
+    destruct (std_unmarshal ty_srvdata data) as [d|]; [|eauto].
+    destruct (negb (eqs (sfld "Type" d) "chat") || is_nil (fld "Chat" d)) eqn:E; [eauto|].
+    apply orb_false_iff in E as [_ E].
+    destruct (fld "Chat" d) eqn:Ef; cbn in E; try discriminate; cbn [deref]; eauto.
+  Qed.
+
+  Lemma forward_safe : forall st rtype sid uid data c, forward st rtype sid uid data c <> VPanic.
+  Proof.
+    intros. unfold forward. destruct (is_chat_refresh_some data) as [r ->].
+    destruct (reaches_offline st rtype sid uid && delivered rtype data); discriminate.
+  Qed.
+
   Lemma enter_message_safe : forall st m p, check_valid m = COk p -> eqs (sfld "Type" m) "message" = true ->
     enter_message sdp_ok st m <> VPanic.
   Proof.
     intros st m p Hcv Ety. destruct (cv_message m p Hcv Ety) as (x & Hx & _).
-    unfold enter_message. rewrite Hx. repeat dgoal; discriminate.
+    unfold enter_message. rewrite Hx. repeat dgoal; try discriminate; apply forward_safe.
   Qed.
 
-  Lemma enter_control_safe : forall m p, check_valid m = COk p -> eqs (sfld "Type" m) "control" = true ->
-    enter_control m <> VPanic.
+  Lemma enter_control_safe : forall st m p, check_valid m = COk p -> eqs (sfld "Type" m) "control" = true ->
+    enter_control st m <> VPanic.
   Proof.
-    intros m p Hcv Ety. destruct (cv_control m p Hcv Ety) as (x & Hx & _).
-    unfold enter_control. rewrite Hx. discriminate.
+    intros st m p Hcv Ety. destruct (cv_control m p Hcv Ety) as (x & Hx & _).
+    unfold enter_control. rewrite Hx. dgoal; discriminate.
   Qed.
 
   Lemma internal_switch_safe : forall m i pre, deref (fld "Internal" m) = Some i -> internal_ok i ->
@@ -513,7 +529,7 @@ Section Facts.
         (ty = "dialout" -> dialout_ok sub)
     | CResponse id d => id <> "" /\ exists dv, deref d = Some dv /\ dialout_ok dv
     | CTransient ty key _ _ => ty = "set" \/ ty = "remove" -> key <> ""
-    | CBye | CProxy _ => True
+    | CBye | CProxy _ | CStore _ => True
     end.
 
   Lemma with_slash_last : forall s, s <> "" -> last_char (with_slash s) = Some "/"%char.
@@ -571,21 +587,34 @@ Section Facts.
     - inversion H; subst. repeat constructor.
   Qed.
 
+  Lemma forward_complete : forall st rtype sid uid data c cs, call_ok c ->
+    forward st rtype sid uid data c = VDispatch cs -> Forall call_ok cs.
+  Proof.
+    intros st rtype sid uid data c cs Hc H. unfold forward in H.
+    destruct (reaches_offline st rtype sid uid && delivered rtype data).
+    - destruct (is_chat_refresh data); [|discriminate]. inversion H; subst. repeat constructor. exact Hc.
+    - inversion H; subst. repeat constructor. exact Hc.
+  Qed.
+
   Lemma enter_message_complete : forall st m p cs, check_valid m = COk p -> eqs (sfld "Type" m) "message" = true ->
     enter_message sdp_ok st m = VDispatch cs -> Forall call_ok cs.
   Proof.
     intros st m p cs Hcv Ety H. destruct (cv_message m p Hcv Ety) as (x & Hx & Hc).
     apply check_message_ok in Hc as (_ & Hrc).
     unfold enter_message in H. rewrite Hx in H.
-    repeat dhyp H; try discriminate; inversion H; subst; constructor; try constructor; cbn; auto.
+    repeat dhyp H; try discriminate;
+      first [ apply forward_complete in H; [exact H | cbn; auto]
+            | inversion H; subst; constructor; try constructor; cbn; auto ].
   Qed.
 
-  Lemma enter_control_complete : forall m p cs, check_valid m = COk p -> eqs (sfld "Type" m) "control" = true ->
-    enter_control m = VDispatch cs -> Forall call_ok cs.
+  Lemma enter_control_complete : forall st m p cs, check_valid m = COk p -> eqs (sfld "Type" m) "control" = true ->
+    enter_control st m = VDispatch cs -> Forall call_ok cs.
   Proof.
-    intros m p cs Hcv Ety H. destruct (cv_control m p Hcv Ety) as (x & Hx & Hc).
+    intros st m p cs Hcv Ety H. destruct (cv_control m p Hcv Ety) as (x & Hx & Hc).
     apply check_message_ok in Hc as (_ & Hrc).
-    unfold enter_control in H. rewrite Hx in H. inversion H; subst. constructor; [|constructor]. exact Hrc.
+    unfold enter_control in H. rewrite Hx in H.
+    destruct (reaches_offline _ _ _ _ && delivered _ _) in H; inversion H; subst;
+      repeat first [apply Forall_nil | apply Forall_cons]; first [exact Hrc | exact I].
   Qed.
 
   Lemma internal_switch_complete : forall m i pre cs, deref (fld "Internal" m) = Some i -> internal_ok i ->
@@ -666,7 +695,7 @@ Section Facts.
                      then enter_proxy m
                      else if eqs (sfld "Type" m) "room" then enter_room m p
                      else if eqs (sfld "Type" m) "message" then enter_message sdp_ok st m
-                     else if eqs (sfld "Type" m) "control" then enter_control m
+                     else if eqs (sfld "Type" m) "control" then enter_control st m
                      else if eqs (sfld "Type" m) "internal" then enter_internal true st m
                      else if eqs (sfld "Type" m) "transient" then enter_transient st m
                      else if eqs (sfld "Type" m) "bye" then VDispatch [CBye] else VIgnored) = VDispatch cs -> Forall call_ok cs).
@@ -675,7 +704,7 @@ Section Facts.
       { now apply enter_proxy_complete with m. }
       destruct (eqs (sfld "Type" m) "room") eqn:E1; [now apply enter_room_complete with m p|].
       destruct (eqs (sfld "Type" m) "message") eqn:E2; [now apply enter_message_complete with st m p|].
-      destruct (eqs (sfld "Type" m) "control") eqn:E3; [now apply enter_control_complete with m p|].
+      destruct (eqs (sfld "Type" m) "control") eqn:E3; [now apply enter_control_complete with st m p|].
       destruct (eqs (sfld "Type" m) "internal") eqn:E4; [now apply enter_internal_complete with st m p|].
       destruct (eqs (sfld "Type" m) "transient") eqn:E5; [now apply enter_transient_complete with st m p|].
       destruct (eqs (sfld "Type" m) "bye"); [|discriminate]. inversion H'; subst. repeat constructor. }
@@ -705,9 +734,11 @@ End Facts.
 (* ---- the code as found ------------------------------------------------------------------------------------------------------ *)
 Definition any_ok (_ : string) : bool := true.
 Definition st_pending : session_state :=
-  {| ss_kind := SInternal; ss_federated := false; ss_pending := ["PENDING"]; ss_mcu := true; ss_inroom := false |}.
+  {| ss_kind := SInternal; ss_federated := false; ss_pending := ["PENDING"]; ss_mcu := true; ss_inroom := false;
+     ss_offline := []; ss_offline_users := []; ss_offline_room := false; ss_offline_call := false |}.
 Definition st_fresh : session_state :=
-  {| ss_kind := SNone; ss_federated := false; ss_pending := []; ss_mcu := true; ss_inroom := false |}.
+  {| ss_kind := SNone; ss_federated := false; ss_pending := []; ss_mcu := true; ss_inroom := false;
+     ss_offline := []; ss_offline_users := []; ss_offline_room := false; ss_offline_call := false |}.
 
 (* {"id":"PENDING","type":"internal","internal":{"type":"incall","incall":{"incall":1}}} *)
 Definition w_dialout : input :=
@@ -742,7 +773,8 @@ Proof. repeat split; vm_compute; reflexivity. Qed.
 
 (* ---- non-vacuity ---------------------------------------------------------------------------------------------------------------- *)
 Definition st_room : session_state :=
-  {| ss_kind := SClient; ss_federated := false; ss_pending := []; ss_mcu := true; ss_inroom := true |}.
+  {| ss_kind := SClient; ss_federated := false; ss_pending := []; ss_mcu := true; ss_inroom := true;
+     ss_offline := ["gone"]; ss_offline_users := ["u9"]; ss_offline_room := true; ss_offline_call := false |}.
 Definition ex_message : json :=
   JObj [("id", JStr "m1"); ("type", JStr "message");
         ("message", JObj [("recipient", JObj [("type", JStr "session"); ("sessionid", JStr "abc")]); ("data", JObj [("x", JNum 1)])])].
